@@ -166,13 +166,29 @@ def source_registrations(tree):
     return out
 
 
-def header_defines(tree):
+def header_defines(tree, scratch=None):
+    """JANET_SANDBOX_* / JANET_FILE_* constants of janet.h whose definition is a literal expression (decimal, hex, `1u << 5`, …;
+    a body that names another identifier - the composites JANET_SANDBOX_FS, _ALL … - is skipped).  The NAMES come from the
+    source text, the VALUES from the compiler (clang evaluates `(unsigned long long)(NAME)` with the tree's headers)."""
     src = strip_comments(read(tree, "src/include/janet.h"))
-    d = {}
-    for m in re.finditer(r'#define\s+(JANET_SANDBOX_\w+|JANET_FILE_(?:WRITE|READ|APPEND|UPDATE))\s+(\d+)\s*$', src, re.M):
-        d[m.group(1)] = int(m.group(2))
-    if len(d) < 10:
+    names = []
+    for m in re.finditer(r'^[ \t]*#[ \t]*define[ \t]+(JANET_SANDBOX_\w+|JANET_FILE_(?:WRITE|READ|APPEND|UPDATE))[ \t]+(\S.*?)[ \t]*$', src, re.M):
+        if not re.search(r'(?<![\w.])[A-Za-z_]\w*', m.group(2)) and m.group(1) not in names:
+            names.append(m.group(1))
+    if len(names) < 10:
         raise ExtractError("JANET_SANDBOX_* defines not found")
+    scratch = scratch or os.path.join("/var/tmp", "c18-defs-%d" % os.getpid())
+    os.makedirs(scratch, exist_ok=True)
+    cfile = os.path.join(scratch, "c18-defs.c")
+    with open(cfile, "w") as f:
+        f.write("#include <janet.h>\n" + "".join("unsigned long long c18v_%s = (unsigned long long)(%s);\n" % (n, n) for n in names))
+    ir = llvmir.compile_ir(cfile, [os.path.join(tree, "src/include"), os.path.join(tree, "src/conf")], out=os.path.join(scratch, "c18-defs.ll"))
+    d = {}
+    for m in re.finditer(r'^@c18v_(\w+) = [^\n]*?global i64 (-?\d+)', ir, re.M):
+        d[m.group(1)] = int(m.group(2)) & 0xFFFFFFFFFFFFFFFF
+    missing = [n for n in names if n not in d]
+    if missing:
+        raise ExtractError("janet.h constants not evaluated by the compiler: %s" % missing[:5])
     return d
 
 
@@ -571,7 +587,7 @@ def extract(build, ir_text=None):
     M.flag_gep = gep
     M.flag_writes = flag_writes(mod, gep)
     M.thread_start = thread_start_shape(mod, gep, None, spawners)
-    M.defines = header_defines(tree)
+    M.defines = header_defines(tree, os.path.join(build.dir, "boot"))
     M.options = sandbox_options(mod)
     regs, methods = registration_tables(mod)
     M.regs, M.methods = regs, methods
